@@ -186,6 +186,48 @@ def process (flow : Flow) (updErr : CheckResult → Bool) (tick : Option (List P
         let s := postProcess flow updErr results value'
         { sinks := s, failed := s.err }
 
+/-! ## tick getters: where a flow's payloads come from
+
+  pkg/v3/flows/retry.go       `retryTick.Value`                  → `sourceTick`
+  pkg/v3/flows/logtrigger.go  `logTick.Value`                    → `sourceTick`
+  pkg/v3/flows/recovery.go    `logRecoveryTick.Value`            → `sourceTick`
+  pkg/v3/flows/recovery.go    `coordinatedProposalsTick.Value`   → `proposalsTick`  (both final flows)
+
+The source (`t.q`, `et.logProvider`, `et.logRecoverer`) is `none` when the flow was built without one (`nil`);
+`some none` is a call on it that returned an error. -/
+
+/-- `UpkeepPayload.IsEmpty`: `p.WorkID == ""` -/
+def payloadEmpty (p : Payload) : Bool := decide (p.workID = "")
+
+/-- `if t.q == nil { return nil, nil }`, `if err != nil { return nil, err }`, `return payloads, err` -/
+def sourceTick (src : Option (Option (List Payload))) : Option (List Payload) :=
+  match src with
+  | none => some []
+  | some none => none
+  | some (some ps) => some ps
+
+/-- the `for _, p := range builtPayloads` loop: `if p.IsEmpty() { filtered++; continue }`, else append -/
+def skipEmpty : List Payload → List Payload
+  | [] => []
+  | p :: ps => if payloadEmpty p then skipEmpty ps else p :: skipEmpty ps
+
+/-- `coordinatedProposalsTick.Value`: no queue → nothing; `Dequeue` error → error; `BuildPayloads` error → error;
+else the built payloads without the empty ones, in the builder's order -/
+def proposalsTick (q : Option (Option (List Proposal))) (build : List Proposal → Option (List Payload)) :
+    Option (List Payload) :=
+  match q with
+  | none => some []
+  | some none => none
+  | some (some props) =>
+    match build props with
+    | none => none
+    | some built => some (skipEmpty built)
+
+/-- the payloads that reach the runner over a sequence of final-flow ticks: per tick the builder's answer `built`,
+without the empty payloads, through the coordinator's filter (`keep`) -/
+def checkedOf (keep : Payload → Bool) (built : List (List Payload)) : List Payload :=
+  built.flatMap (fun b => (skipEmpty b).filter keep)
+
 /-! ## what the real sinks keep (only as far as the harness reads them back) -/
 
 /-- `resultStore.Add` for one result: kept if the work id is new or the check block is higher -/
